@@ -155,3 +155,83 @@ Proof.
   rewrite Hl. cbn [Nat.eqb negb].
   pose proof (gen_parse_ip6_arpa_loop parts Hl) as G. destruct (nibbles parts); exact G.
 Qed.
+
+(* ---------------- compiled.zoneExcluded and compiled.hasWellKnown ---------------- *)
+Lemma skipn_nth_cons {A} (d : A) s i : (i < length s)%nat -> skipn i s = nth i s d :: skipn (S i) s.
+Proof.
+  revert i. induction s as [|x s IH]; intros i H; [cbn in H; lia|].
+  destruct i; [reflexivity|]. cbn [skipn nth]. apply IH. cbn [length] in H. lia.
+Qed.
+
+Lemma go_list_eqb_model a b : go_list_eqb N.eqb a b = list_eqb a b.
+Proof. revert b. induction a as [|x a IH]; intros [|y b]; cbn [go_list_eqb list_eqb]; try reflexivity. rewrite IH. reflexivity. Qed.
+Lemma go_has_suffix_model s p : go_has_suffix N.eqb s p = has_suffix s p.
+Proof. unfold go_has_suffix, has_suffix. rewrite go_list_eqb_model. reflexivity. Qed.
+
+(* the model's test of one compiled zone *)
+Definition zone_hit (qname z : list N) : bool := list_eqb qname z || has_suffix qname (46 :: z).
+
+Lemma gen_zoneExcluded_loop s c q : forall fuel i,
+  (length s - i < fuel)%nat ->
+  go_compiled_zoneExcluded_loop1 s fuel (Z.of_nat i) c q =
+  (if existsb (zone_hit q) (skipn i s) then GoRet true else GoNext, (c, q)).
+Proof.
+  induction fuel as [|fuel IH]; intros i Hf; [lia|].
+  cbn [go_compiled_zoneExcluded_loop1]. unfold go_len.
+  destruct (Z.ltb (Z.of_nat i) (Z.of_nat (length s))) eqn:E.
+  - apply Z.ltb_lt in E. rewrite go_idx_nth by lia. rewrite Nat2Z.id.
+    rewrite (skipn_nth_cons [] s i) by lia. cbn [existsb]. unfold zone_hit at 1.
+    rewrite go_list_eqb_model, go_has_suffix_model. change ([46] ++ nth i s []) with (46 :: nth i s []).
+    destruct (list_eqb q (nth i s [])); [reflexivity|]. cbn [orb].
+    destruct (has_suffix q (46 :: nth i s [])); [reflexivity|].
+    replace (Z.add (Z.of_nat i) 1) with (Z.of_nat (S i)) by lia. apply IH. lia.
+  - apply Z.ltb_ge in E. rewrite skipn_all2 by lia. reflexivity.
+Qed.
+
+(* compiled.zoneExcluded as the Go source has it = Model.zone_excluded on the compiled zone list *)
+Lemma gen_zoneExcluded c q :
+  go_compiled_zoneExcluded c q = existsb (zone_hit q) (T_compiled_excludeZones c).
+Proof.
+  unfold go_compiled_zoneExcluded. cbv zeta.
+  destruct (T_compiled_excludeZones c) as [|z zs] eqn:Ez; [reflexivity|].
+  change (Z.eqb (go_len (z :: zs)) 0) with false. cbv iota.
+  pose proof (gen_zoneExcluded_loop (z :: zs) c q (S (length (z :: zs))) 0%nat ltac:(lia)) as H.
+  cbn [Z.of_nat skipn] in H. rewrite H. destruct (existsb (zone_hit q) (z :: zs)); reflexivity.
+Qed.
+Lemma gen_zoneExcluded_model (mc : Model.compiled) (gc : T_compiled) q :
+  T_compiled_excludeZones gc = c_zones mc -> go_compiled_zoneExcluded gc q = zone_excluded mc q.
+Proof. intros E. rewrite gen_zoneExcluded, E. reflexivity. Qed.
+
+Lemma gen_hasWellKnown_loop s c : forall fuel i,
+  (length s - i < fuel)%nat ->
+  go_compiled_hasWellKnown_loop1 s fuel (Z.of_nat i) c =
+  (if existsb T_compiledPrefix_wellKnown (skipn i s) then GoRet true else GoNext, c).
+Proof.
+  induction fuel as [|fuel IH]; intros i Hf; [lia|].
+  cbn [go_compiled_hasWellKnown_loop1]. unfold go_len.
+  destruct (Z.ltb (Z.of_nat i) (Z.of_nat (length s))) eqn:E.
+  - apply Z.ltb_lt in E. rewrite go_idx_nth by lia. rewrite Nat2Z.id.
+    rewrite (skipn_nth_cons zero_T_compiledPrefix s i) by lia. cbn [existsb].
+    destruct (T_compiledPrefix_wellKnown (nth i s zero_T_compiledPrefix)); [reflexivity|]. cbn [orb].
+    replace (Z.add (Z.of_nat i) 1) with (Z.of_nat (S i)) by lia. apply IH. lia.
+  - apply Z.ltb_ge in E. rewrite skipn_all2 by lia. reflexivity.
+Qed.
+
+(* compiled.hasWellKnown (the gate of the exclude_a list in compileConfig and of
+   shouldExcludeAOnPrefix's caller) = the model's [existsb cp_wk] *)
+Lemma gen_hasWellKnown c :
+  go_compiled_hasWellKnown c = existsb T_compiledPrefix_wellKnown (T_compiled_prefixes c).
+Proof.
+  unfold go_compiled_hasWellKnown. cbv zeta.
+  pose proof (gen_hasWellKnown_loop (T_compiled_prefixes c) c (S (length (T_compiled_prefixes c))) 0%nat ltac:(lia)) as H.
+  cbn [Z.of_nat skipn] in H. rewrite H. destruct (existsb _ _); reflexivity.
+Qed.
+Lemma gen_hasWellKnown_model (ps : list cprefix) (gc : T_compiled) :
+  map T_compiledPrefix_wellKnown (T_compiled_prefixes gc) = map cp_wk ps ->
+  go_compiled_hasWellKnown gc = existsb cp_wk ps.
+Proof.
+  intros E. rewrite gen_hasWellKnown.
+  assert (forall A (f : A -> bool) l, existsb f l = existsb id (map f l)) as M
+    by (intros A f l; induction l as [|x l IH]; cbn; [reflexivity | rewrite IH; reflexivity]).
+  rewrite (M _ T_compiledPrefix_wellKnown), (M _ cp_wk), E. reflexivity.
+Qed.
